@@ -328,8 +328,11 @@ func (p *PHYPayload) DecryptJoinAcceptPayload(key AES128Key) error {
 		return errors.New("lorawan: MACPayload must be of type *DataPayload")
 	}
 
-	// append MIC to the ciphertext since it is encrypted too
-	ct := append(dp.Bytes, p.MIC[:]...)
+	// append MIC to the ciphertext since it is encrypted too (on a copy:
+	// appending to dp.Bytes could write into its spare capacity)
+	ct := make([]byte, 0, len(dp.Bytes)+len(p.MIC))
+	ct = append(ct, dp.Bytes...)
+	ct = append(ct, p.MIC[:]...)
 
 	if len(ct)%16 != 0 {
 		return errors.New("lorawan: plaintext must be a multiple of 16 bytes")
@@ -856,8 +859,12 @@ func (p *PHYPayload) calculateDownlinkDataMIC(macVersion MACVersion, confFCnt ui
 func EncryptFRMPayload(key AES128Key, uplink bool, devAddr DevAddr, fCnt uint32, data []byte) ([]byte, error) {
 	pLen := len(data)
 	if pLen%16 != 0 {
-		// append with empty bytes so that len(data) is a multiple of 16
-		data = append(data, make([]byte, 16-(pLen%16))...)
+		// pad with empty bytes so that len(data) is a multiple of 16. This is
+		// done on a copy: appending to data could write into the spare
+		// capacity of the caller's slice (the bytes following it).
+		padded := make([]byte, pLen+16-(pLen%16))
+		copy(padded, data)
+		data = padded
 	}
 
 	block, err := aes.NewCipher(key[:])
